@@ -3,7 +3,7 @@
 //! calls of ant-node's `create_quote_for_storecost`, which lives in a crate this driver cannot link),
 //! mutated as prescribed by the TLC case list and by seeded random choices, then presented to the real
 //! `check_is_signed_by_claimed_peer`, `ProofOfPayment::verify_for` / `payees` / `quotes_by_peer`,
-//! `has_expired`, `historical_verify` and `hash`.
+//! `has_expired` (of a quote and of a whole proof), `historical_verify` and `hash`.
 //!
 //! Every event logs the ABSTRACT PROJECTION of the concrete quote, computed from the concrete bytes by
 //! table look-up (value tables per field, public-key bytes -> identity, signature bytes -> (signer,
@@ -18,7 +18,7 @@ use serde_json::{json, Value};
 use sha2::{Digest, Sha256};
 use std::cell::RefCell;
 use std::collections::HashMap;
-use std::time::{Duration, SystemTime, UNIX_EPOCH};
+use std::time::{Duration, Instant, SystemTime, UNIX_EPOCH};
 use vtrace::{arg, guarded, quiet_panics, read_ndjson, Trace};
 use xor_name::XorName;
 
@@ -320,6 +320,45 @@ fn expiry_event(t: &mut Trace, d: i64, nanos: u32, exp: Value, src: &str) {
     panic!("the clock advanced by more than one second during eight consecutive has_expired calls");
 }
 
+/// ProofOfPayment::has_expired (the PROOF-level function a node calls) on a proof whose quotes are dated `ds[i]` whole
+/// seconds after the sampled now; the payees are the three identities in turn (expiry does not look at them)
+fn proof_expiry_event(w: &World, t: &mut Trace, ds: &[i64], exp: Value, src: &str) {
+    for _attempt in 0..8 {
+        let n0 = now_secs();
+        let pq = ds
+            .iter()
+            .enumerate()
+            .map(|(i, d)| {
+                let mut q = PaymentQuote::zero();
+                q.timestamp = UNIX_EPOCH + Duration::new((n0 as i64 + d) as u64, 0);
+                (EncodedPeerId::from(w.peers[i % 3]), q)
+            })
+            .collect();
+        let p = ProofOfPayment { peer_quotes: pq };
+        let res = b3(guarded(|| p.has_expired()));
+        let n1 = now_secs();
+        if n1 - n0 <= 1 {
+            t.emit(json!({"ev":"ProofExpiry","ds":ds,"res":res,"dnow":n1 - n0,"exp":exp,"src":src}));
+            return;
+        }
+    }
+    panic!("the clock advanced by more than one second during eight consecutive ProofOfPayment::has_expired calls");
+}
+
+/// has_expired at the edges themselves: `now` is taken with nanoseconds and the quote is dated exactly `ms`
+/// milliseconds from it (-3601000: one second too old; -3599000: one second inside; +2000: in the future). The time
+/// from before sampling `now` to after the call is measured on the monotonic clock; a call slower than half a second
+/// could have crossed an edge and is voided (logged, not judged).
+fn expiry_fine_event(t: &mut Trace, ms: i64, exp: Value, src: &str) {
+    let started = Instant::now();
+    let now = SystemTime::now();
+    let mut q = PaymentQuote::zero();
+    q.timestamp = if ms >= 0 { now + Duration::from_millis(ms as u64) } else { now - Duration::from_millis((-ms) as u64) };
+    let res = b3(guarded(|| q.has_expired()));
+    let elapsed = started.elapsed().as_millis() as u64;
+    t.emit(json!({"ev":"ExpiryFine","ms":ms,"res":res,"elapsed_ms":elapsed.min(1_000_000),"void":elapsed > 500,"exp":exp,"src":src}));
+}
+
 /// historical_verify between two quotes; timestamps are relative to the sampled now
 fn history_event(w: &World, t: &mut Trace, old: (i64, u64, usize), new: (i64, u64, usize), same: bool, selfnewer: bool, exp: Value, src: &str) {
     let n0 = now_secs();
@@ -404,6 +443,32 @@ fn random_section(w: &mut World, t: &mut Trace, seed: u64, n: usize) {
             };
             let nanos = if d <= -2 && !(-3605..=-3596).contains(&d) && r.gen_bool(0.5) { r.gen_range(0..1_000_000_000) } else { 0 };
             expiry_event(t, d, nanos, json!({}), "random");
+            // a random proof of 0..6 quotes dated at safe distances from the edges: none / one / several of them expired, anywhere
+            let plen = r.gen_range(0..=6);
+            let spot = if plen > 0 { r.gen_range(0..plen) } else { 0 };
+            let mode = r.gen_range(0..4);
+            let ds: Vec<i64> = (0..plen)
+                .map(|j| {
+                    let out = match mode {
+                        0 => false,
+                        1 => j == spot,
+                        2 => r.gen_bool(0.3),
+                        _ => j == spot || r.gen_bool(0.5),
+                    };
+                    if !out { r.gen_range(-3596..=0) } else if r.gen_bool(0.5) { r.gen_range(-200_000..=-3604) } else { r.gen_range(4..200_000) }
+                })
+                .collect();
+            proof_expiry_event(w, t, &ds, json!({}), "random");
+            // the edges again with whatever nanoseconds the clock shows now; whole-second offsets are judged, the others noted
+            let ms: i64 = match r.gen_range(0..6) {
+                0 => -3_601_000,
+                1 => -3_599_000,
+                2 => 2_000,
+                3 => -1_000 * r.gen_range(1..3599i64),
+                4 => -1_000 * r.gen_range(3601..100_000i64),
+                _ => -3_600_000 - r.gen_range(1..1000i64),
+            };
+            expiry_fine_event(t, ms, json!({}), "random");
             // random history pair; keep the uptime step >= 3 away from the implementation's margin edge
             let gap = r.gen_range(2..2000i64);
             let ots = -r.gen_range(2100..100_000i64);
@@ -448,6 +513,11 @@ fn main() {
                     proof_event(&w, &mut t, &ProofOfPayment { peer_quotes: pq }, cs["me"].as_str().expect("me"), json!({"res": cs["exp"]}), "tlc");
                 }
                 "expiry" => expiry_event(&mut t, cs["d"].as_i64().expect("d"), 0, json!({"res": cs["exp"]}), "tlc"),
+                "pexpiry" => {
+                    let ds: Vec<i64> = cs["ds"].as_array().expect("ds").iter().map(|d| d.as_i64().expect("d")).collect();
+                    proof_expiry_event(&w, &mut t, &ds, json!({"res": cs["exp"]}), "tlc");
+                }
+                "fine" => expiry_fine_event(&mut t, cs["ms"].as_i64().expect("ms"), json!({"res": cs["exp"]}), "tlc"),
                 "history" => {
                     let h = |v: &Value| (v["ts"].as_i64().expect("ts"), v["live"].as_u64().expect("live"), v["rpc"].as_u64().expect("rpc") as usize);
                     history_event(&w, &mut t, h(&cs["old"]), h(&cs["new"]), cs["same"].as_bool().expect("same"), cs["selfnewer"].as_bool().expect("selfnewer"),
@@ -464,6 +534,23 @@ fn main() {
         }
         let n0 = now_secs() as i64;
         expiry_event(&mut t, -n0, 0, json!({}), "class");
+        // the edges at one second's distance, repeated (the sub-second phase of `now` differs from call to call); half a
+        // second past the old edge is an observation only (I4)
+        for _ in 0..5 {
+            for ms in [-3_601_000i64, -3_599_000, 2_000, -1_000, -3_600_500] {
+                expiry_fine_event(&mut t, ms, json!({}), "class");
+            }
+        }
+        // proof-level expiry: the expired quote first / in the middle / last of five, too old or from the future; none; all
+        for bad in [-3700i64, 5, -1_000_000, 86_400] {
+            for pos in 0..5 {
+                let ds: Vec<i64> = (0..5).map(|j| if j == pos { bad } else { -10 * (j as i64 + 1) }).collect();
+                proof_expiry_event(&w, &mut t, &ds, json!({}), "class");
+            }
+        }
+        proof_expiry_event(&w, &mut t, &[-10, -20, -30, -40, -50], json!({}), "class");
+        proof_expiry_event(&w, &mut t, &[-3700, 5, -3700, 5], json!({}), "class");
+        proof_expiry_event(&w, &mut t, &[], json!({}), "class");
         // equal timestamps and future timestamps in history pairs (outside the statement: observations only), lower steps with future timestamps
         history_event(&w, &mut t, (-1000, 500, 5), (-1000, 400, 5), true, true, json!({}), "class");
         history_event(&w, &mut t, (-1000, 500, 5), (-1000, 400, 5), true, false, json!({}), "class");
